@@ -78,33 +78,29 @@ def native_replay(scratch, pkg, record_path, timeout=180, scripted=False, race=F
     return failed, out
 
 
-def retry_random(scratch, job, rec, path, x, known, known_hits, violations, tries=3):
-    """the solver says the two sides can differ, but its own witness happens not to separate them natively (typical
-    when library calls are summarised: the formula does not depend on the data, so the model's bits are arbitrary).
-    Try a few pseudo-random inputs of the same shape; a natively failing one is a reproduced counterexample."""
-    import random
-    for t in range(tries):
-        r2 = json.loads(json.dumps(rec))
-        rnd = random.Random(1000 + t)
-        for i in r2['inputs']:
-            if i.get('kind') in ('bits', 'bytes'):
-                i['bits'] = ''.join('1' if rnd.random() < 0.5 else '0' for _ in i['bits'])
-        p2 = path.replace('.json', '-r%d.json' % t)
-        json.dump(r2, open(p2, 'w'), indent=1)
-        failed, out = native_replay(scratch, job['pkg'], p2, scripted=rec.get('scripted', False), race=rec.get('race', False))
-        if failed and 'VERIF-ASSUME-FAILED' not in out:
-            desc = '%s %s %s %s' % (job['harness'], x['kind'], x['label'], x['pos'])
-            k = next((k for k in known if k['match'] and k['match'] in desc), None)
-            if k is not None:
-                known_hits.append((k, desc, p2))
-            else:
-                violations.append((desc + ' [witness: pseudo-random input %d after the solver model did not separate the two sides]' % t, p2, out[-1500:]))
-            try:
-                os.remove(path)
-            except OSError:
-                pass
-            return True
-        os.remove(p2)
+def retry_random(scratch, job, rec, path, x, known, known_hits, violations, tries=1000):
+    """the solver says the two sides can differ (definite sat), but its own witness happens not to separate them natively
+    (typical when library calls are summarised: the formula does not depend on the data, so the model's bits are
+    arbitrary). One more native run tries `tries` pseudo-random inputs of the same shape; a failing one is a reproduced
+    counterexample (the record then carries the search parameters, the replay is deterministic)."""
+    r2 = json.loads(json.dumps(rec))
+    r2['search'] = tries
+    p2 = path.replace('.json', '-search.json')
+    json.dump(r2, open(p2, 'w'), indent=1)
+    failed, out = native_replay(scratch, job['pkg'], p2, timeout=300, scripted=rec.get('scripted', False), race=rec.get('race', False))
+    if failed and 'VERIF-SEARCH-HIT' in out:
+        desc = '%s %s %s %s' % (job['harness'], x['kind'], x['label'], x['pos'])
+        k = next((k for k in known if k['match'] and k['match'] in desc), None)
+        if k is not None:
+            known_hits.append((k, desc, p2))
+        else:
+            violations.append((desc + ' [witness found among %d pseudo-random inputs after the solver model did not separate the two sides]' % tries, p2, out[-1500:]))
+        try:
+            os.remove(path)
+        except OSError:
+            pass
+        return True
+    os.remove(p2)
     return False
 
 
